@@ -4,11 +4,13 @@ From SV Require Import lib.Val lib.Bytes model.RelayClient.
 Import ListNotations.
 Open Scope N_scope.
 
-Definition dec_outcome (n : N) : outcome :=
+Definition dec_outcome0 (n : N) : outcome :=
   match n with
   | 0 => R2 | 1 => R3 | 2 => R4 | 3 => R5 | 4 => R500
   | 5 => Malformed | 6 => BadCode | 7 => Disconnect | _ => Stall
   end.
+(* an outcome is given as its number (0..8) or, for a well-formed reply, as the reply code itself *)
+Definition dec_outcome (n : N) : outcome := if 100 <=? n then outcome_of_code n else dec_outcome0 n.
 (* stage kinds: 0 banner 1 ehlo 2 helo 3 starttls 4 ehlo2 5 helo2 6 auth 7 quit
                 8 idle 9 mail 10 rcpt 11 data 12 eod 13 rset *)
 Definition dec_stage (k m i : N) : stage :=
